@@ -29,6 +29,14 @@ pub uninterp spec fn db_has(rec: DbRecord) -> bool;
 // global write permission (frame conditions are phrased as: "every record set handed to a write path was permitted")
 pub uninterp spec fn write_allowed(recs: Seq<DbRecord>) -> bool;
 
+// "the database write of the committing transaction's records has returned, or no such write will be attempted" (knowledge of ONE commit)
+pub uninterp spec fn write_attempt_over() -> bool;
+// the two ways a commit ends without attempting a write: nothing to write, or a log that does not end with the epoch record
+#[verifier::external_body]
+pub proof fn grant_no_write_attempt(records: Seq<DbRecord>)
+    requires records.len() == 0 || !(records.last() is Azks)
+    ensures write_attempt_over()
+{}
 #[verifier::external_body]
 pub struct Transaction { _p: u8 }
 impl Transaction {
@@ -39,9 +47,23 @@ impl Transaction {
 
     #[verifier::external_body]
     pub fn is_transaction_active(&self) -> (r: bool) ensures r == self.spec_active() { unimplemented!() }
+    // commit = take the records + end the transaction AT ONCE: only legitimate once no write of those records is still to come
+    // (C12: a transaction that begins while a commit write is in flight reads the state from before that commit and overwrites it)
     #[verifier::external_body]
     pub fn commit_transaction(&self) -> (r: Result<Vec<DbRecord>, StorageError>)
+        requires write_attempt_over()
         ensures r is Ok ==> r->Ok_0@ == self.spec_log()
+    { unimplemented!() }
+    // first half of a commit: the pending records in commit order; the transaction stays active
+    #[verifier::external_body]
+    pub fn take_records_for_commit(&self) -> (r: Result<Vec<DbRecord>, StorageError>)
+        ensures r is Ok ==> r->Ok_0@ == self.spec_log()
+    { unimplemented!() }
+    // second half: another transaction may begin from here on - permitted only once the write of the records has returned
+    // (accepted or rejected) or it is certain that none will be attempted
+    #[verifier::external_body]
+    pub fn end_transaction(&self)
+        requires write_attempt_over()
     { unimplemented!() }
     #[verifier::external_body]
     pub fn get_user_state(&self, username: &AkdLabel, flag: ValueStateRetrievalFlag) -> (r: Option<ValueState>)
@@ -70,7 +92,8 @@ impl<Db: Database> DbHandle<Db> {
     pub async fn batch_set(&self, records: Vec<DbRecord>, state: DbSetState) -> (r: Result<(), StorageError>)
         requires state is TransactionCommit ==> records@.len() > 0 && records@.last() is Azks,
                  state is General ==> write_allowed(records@),
-        ensures r is Ok ==> self.db_written(records@) && forall|i: int| 0 <= i < records@.len() ==> db_has(#[trigger] records@[i])
+        ensures r is Ok ==> self.db_written(records@) && forall|i: int| 0 <= i < records@.len() ==> db_has(#[trigger] records@[i]),
+                state is TransactionCommit ==> write_attempt_over(),
     { unimplemented!() }
     #[verifier::external_body]
     pub async fn set(&self, record: DbRecord) -> (r: Result<(), StorageError>)
